@@ -351,6 +351,13 @@ class TaintInterp:
             return T([[CODE]])
         if fname == "re.sub" and len(args) >= 3:
             from .props.c02 import regex_kept_chars  # noqa: PLC0415
+            if len(args) >= 4 or any(k.arg == "count" for k in node.keywords):
+                # the 4th positional argument is `count`, not `flags`: only
+                # that many matches are replaced, the rest passes unchanged
+                return T([[slot("RAW", "re.sub limited by a count ("
+                                + ast.unparse(node)[:50] + "): a flag passed "
+                                "positionally is taken as the count",
+                                line=line)]])
             try:
                 pat = self.fold(args[0])
                 rep = self.fold(args[1])
